@@ -43,6 +43,17 @@ def gen_forest(rng: random.Random, depth: int, width: int, keys: list[str], wide
 	return out
 
 
+def gen_twin_forest(rng: random.Random, keys: list[str], depth: int) -> Forest:
+	"""several top-level trees of the same shape whose inner nodes sit at the same own index under different parents, with different
+	numbers of children there: the groups `0.1.*`, `1.1.*`, … (and `0.1.0.*`, `1.1.0.*`, …) are adjacent in the depth-sorted paths"""
+	def chain(d: int) -> Forest:
+		kids = [(rng.choice(keys), []) for _ in range(rng.randint(1, 3))]
+		if d <= 1:
+			return kids
+		return [(rng.choice(keys), []), (rng.choice(keys), chain(d - 1) if rng.random() < 0.85 else [])][:rng.randint(2, 2)] + ([(rng.choice(keys), [])] if rng.random() < 0.3 else [])
+	return [(rng.choice(keys), chain(depth)) for _ in range(rng.randint(2, 4))]
+
+
 def forest_sexp(f: Forest) -> str:
 	def node(n: tuple[str, Forest]) -> str:
 		k, cs = n
@@ -70,6 +81,14 @@ def py_flatten(f: Forest, prefix: str = '') -> dict[str, str]:
 		out[p] = k
 		out.update(py_flatten(cs, p))
 	return out
+
+
+def exc_text(e: BaseException, limit: int = 200) -> str:
+	"""the message of an exception of the real code; formatting it may itself run code under test (reflection __repr__), so it is guarded"""
+	try:
+		return str(e)[:limit]
+	except Exception as e2:  # noqa: BLE001
+		return f'<{type(e).__name__}: message not printable ({type(e2).__name__})>'
 
 
 def prefix_closed(d: dict[str, str]) -> bool:
@@ -107,6 +126,9 @@ class StubNode:
 		self.cls = cls
 		self.decl = decl
 		self.id = 0
+		self.domain_name = fullyname.split('#')[-1]
+		self.symbol = self
+		self.tokens = self.domain_name
 
 	@property
 	def dsn(self) -> str:
@@ -435,7 +457,7 @@ def stream_rebuild_stub(ctx: Ctx) -> Stream:
 		for k, e in entries.items():
 			db[k] = e
 			ents.append(f'{hx(k)}={hx(e.types.fullyname)}={forest_sexp(obs_forest(e.attrs))}')
-		f = gen_forest(rng, 1 + i % 5, 1 + i % 4, leaf_keys, wide=i % 7 == 0)
+		f = gen_forest(rng, 1 + i % 5, 1 + i % 4, leaf_keys, wide=i % 7 == 0) if i % 5 else gen_twin_forest(rng, leaf_keys, 2 + i % 3)
 		data = py_flatten(f)
 		if kind == 'malformed':
 			data = mutate_flat(rng, data, keys)
@@ -714,7 +736,7 @@ def search_stub_laws(ctx: Ctx) -> SearchResult:
 		res.cases += 1
 		entries, nodes = stub_classes(rng, traits, rng.randint(2, 9))
 		keys = list(entries)
-		f = gen_forest(rng, 1 + i % 5, 1 + i % 4, keys, wide=i % 5 == 0)
+		f = gen_forest(rng, 1 + i % 5, 1 + i % 4, keys, wide=i % 5 == 0) if i % 6 else gen_twin_forest(rng, keys, 2 + i % 3)
 		seen.add(forest_sexp(f))
 		rep = {'forest': forest_sexp(f), 'keys': keys}
 		# (a) expand against the independent walk
@@ -724,7 +746,7 @@ def search_stub_laws(ctx: Ctx) -> SearchResult:
 			if list(got.items()) != list(py_flatten(f).items()):
 				found('stub:expand', f'seqs.expand differs from the pre-order walk: {flat_text(got)[:200]} vs {flat_text(py_flatten(f))[:200]}', rep)
 		except Exception as e:  # noqa: BLE001
-			found(f'stub:expand:raises:{exc_enum(e)}', str(e)[:200], rep)
+			found(f'stub:expand:raises:{exc_enum(e)}', exc_text(e, 200), rep)
 		# (b) rebuild ∘ flatten = id
 		try:
 			db = SymbolDB()
@@ -735,7 +757,7 @@ def search_stub_laws(ctx: Ctx) -> SearchResult:
 			if back != f:
 				found('stub:rebuild', f'_deserialize_attrs(flatten f) shows {forest_sexp(back)[:200]} for f = {forest_sexp(f)[:200]}', rep)
 		except Exception as e:  # noqa: BLE001
-			found(f'stub:rebuild:raises:{exc_enum(e)}', str(e)[:200], rep)
+			found(f'stub:rebuild:raises:{exc_enum(e)}', exc_text(e, 200), rep)
 		# (b2) shared objects: expand per slot; to_temporary makes new objects at every depth, writes through it never reach the entry
 		try:
 			fi = gen_iforest(rng, 2 + i % 4, 1 + i % 3, keys, share=0.4)
@@ -761,7 +783,7 @@ def search_stub_laws(ctx: Ctx) -> SearchResult:
 					found('stub:temporary-write-leaks', f'seqs.update(copy.attrs, {p!r}, …) changed the entry: {forest_sexp(obs_forest([entry]))[:200]} was {forest_sexp(before)[:200]}', {**rep_i, 'path': p})
 					break
 		except Exception as e:  # noqa: BLE001
-			found(f'stub:identity:raises:{exc_enum(e)}', str(e)[:200], {'iforest': iforest_sexp(fi)})
+			found(f'stub:identity:raises:{exc_enum(e)}', exc_text(e, 200), {'iforest': iforest_sexp(fi)})
 		# (c) table laws on a table in dependency order
 		if i % 2:
 			continue
@@ -829,7 +851,7 @@ def search_stub_laws(ctx: Ctx) -> SearchResult:
 				if new.has_module(m) or new.completed(m) or len(new) != len(db) - len(before):
 					found('stub:unload', f'unload({m}) leaves entries or the completed mark', {**rep, 'module': m})
 			except Exception as e:  # noqa: BLE001
-				found(f'stub:table:raises:{exc_enum(e)}', f'{m}: {str(e)[:200]}', {**rep, 'module': m})
+				found(f'stub:table:raises:{exc_enum(e)}', f'{m}: {exc_text(e, 200)}', {**rep, 'module': m})
 	res.distinct = len(seen)
 	res.histogram = dict(hist) or {'ok': res.cases}
 	return res
@@ -1183,6 +1205,12 @@ GENERIC_ALIAS_FORWARD = ('from typing import Generic, TypeVar, TypeAlias\n'
 	'Again: TypeAlias = list[Plain]\n'
 	'def last(a: Again, r: Registry[str]) -> None: ...\n')
 
+# two parameters whose nested type arguments sit under parent paths that end in the same index (`0.1.*` and `1.1.*`): the
+# grouping of _deserialize_attrs has to compare whole parent paths
+TWIN_PARENT_INDEX = ('class Item: ...\n'
+	'def merge(a: dict[str, list[int]], b: dict[str, list[Item]]) -> dict[str, list[int | Item]]: ...\n'
+	'def deeper(a: list[dict[str, tuple[int, str]]], b: list[dict[str, tuple[Item, Item, int]]], c: list[dict[int, tuple[str]]]) -> None: ...\n')
+
 ORDER_WITNESS = ('from typing import Generic, TypeVar\n'
 	"def f(x: 'G[int]') -> None: ...\n"
 	"T = TypeVar('T')\n"
@@ -1271,6 +1299,7 @@ def load_programs(ctx: Ctx, stream: str, n_generated: int, real_modules: list[st
 	todo.append(('fixed', 'order-witness', {'__main__': ORDER_WITNESS}, '__main__'))
 	todo.append(('fixed', 'listed-generic-forward-arg', {'__main__': LISTED_GENERIC_FORWARD_ARG}, '__main__'))
 	todo.append(('fixed', 'generic-alias-forward', {'__main__': GENERIC_ALIAS_FORWARD}, '__main__'))
+	todo.append(('fixed', 'twin-parent-index', {'__main__': TWIN_PARENT_INDEX}, '__main__'))
 	for fn in sorted(os.listdir(os.path.join(common.CORPUS_DIR, PROP))) if os.path.isdir(os.path.join(common.CORPUS_DIR, PROP)) else []:
 		with open(os.path.join(common.CORPUS_DIR, PROP, fn), encoding='utf-8') as f:
 			rec = json.load(f)
@@ -1290,7 +1319,7 @@ def load_programs(ctx: Ctx, stream: str, n_generated: int, real_modules: list[st
 			stats[f'{kind}:unsupported:{exc_enum(e)}'] += 1
 			if kind in ('fixed', 'corpus'):
 				# these load on the unchanged tree: a failure is a finding of the search, not a skipped case
-				yield Loaded(name, None, f'{kind}-load-failed:{exc_enum(e)}:{str(e)[:160]}', srcs, entry), stats
+				yield Loaded(name, None, f'{kind}-load-failed:{exc_enum(e)}:{exc_text(e, 160)}', srcs, entry), stats
 			continue
 		stats[f'{kind}:loaded'] += 1
 		yield Loaded(name, app, kind, srcs, entry), stats
@@ -1303,7 +1332,7 @@ def load_programs(ctx: Ctx, stream: str, n_generated: int, real_modules: list[st
 				describe(s)
 		except Exception as e:  # noqa: BLE001
 			stats[f'real:unsupported:{exc_enum(e)}'] += 1
-			yield Loaded(m, None, f'real-load-failed:{exc_enum(e)}:{str(e)[:160]}', None, m), stats
+			yield Loaded(m, None, f'real-load-failed:{exc_enum(e)}:{exc_text(e, 160)}', None, m), stats
 			continue
 		stats['real:loaded'] += 1
 		yield Loaded(m, rapp, 'real', None, m), stats
@@ -1421,7 +1450,7 @@ def check_module(ld: Loaded, mod: str) -> list[Finding]:
 	try:
 		_check_module(ld, mod, replay, out, stage)
 	except Exception as e:  # noqa: BLE001
-		out.append(Finding(key=f'{stage[0]}:raises:{exc_enum(e)}', what=f'{stage[0]} of {mod} raises {exc_enum(e)}: {str(e)[:200]}', replay=replay))
+		out.append(Finding(key=f'{stage[0]}:raises:{exc_enum(e)}', what=f'{stage[0]} of {mod} raises {exc_enum(e)}: {exc_text(e, 200)}', replay=replay))
 	return out
 
 
@@ -1455,7 +1484,7 @@ def _check_module(ld: Loaded, mod: str, replay: dict[str, Any], out: list[Findin
 		new.import_json(ser, data)
 	except Exception as e:  # noqa: BLE001
 		if not bad_order:
-			found(f'import:raises:{exc_enum(e)}', f'import of the export of {mod} raises {exc_enum(e)}: {str(e)[:200]}', {})
+			found(f'import:raises:{exc_enum(e)}', f'import of the export of {mod} raises {exc_enum(e)}: {exc_text(e, 200)}', {})
 		return
 	if bad_order:
 		found('order:oracle-disagrees', 'import succeeded although a row refers to a later key', {'violations': bad_order[:3]})
@@ -1625,7 +1654,7 @@ def replay(ctx: Ctx, path: str) -> int:
 		try:
 			app.load(inp['sources'], inp['entry'])
 		except Exception as e:  # noqa: BLE001
-			print(f'replay: the program no longer loads: {exc_enum(e)}: {str(e)[:200]}')
+			print(f'replay: the program no longer loads: {exc_enum(e)}: {exc_text(e, 200)}')
 			print(f'VIOLATION property={PROP} replay={path}')
 			ctx.cleanup()
 			return 1
